@@ -4,6 +4,7 @@
 #   mutant.sh suite <patch.diff>               run the pinned suite on a scratch worktree with the patch applied
 #   mutant.sh check <patch.diff> <PROP>...      apply the patch to /repo, run the quick checks of the given properties, undo the patch
 set -u
+VERIF=$(cd "$(dirname "$0")/.." && pwd)      # (works from a snapshot of /verif too)
 cmd=$1; shift
 case "$cmd" in
 confirm)
@@ -11,7 +12,7 @@ confirm)
     wt=$(mktemp -d /tmp/mutwt.XXXXXX); rmdir "$wt"
     git -C /repo worktree add -q "$wt" HEAD || exit 2
     trap 'git -C /repo worktree remove --force "$wt" >/dev/null 2>&1; rm -rf "$wt" /tmp/mutdemo.$$' EXIT
-    cfg=$(mktemp -d /tmp/mutcfg.XXXXXX); python3 /verif/tools/gen_config.py "$wt" "$cfg/st_config.h"
+    cfg=$(mktemp -d /tmp/mutcfg.XXXXXX); python3 "$VERIF"/tools/gen_config.py "$wt" "$cfg/st_config.h"
     build_demo() { g++ -std=c++20 -w -pthread "$@" -I"$cfg" -I"$wt/include" "$dir/demo.cpp" -o /tmp/mutdemo.$$ ; }
     run_demo() { ( cd /tmp && timeout 20 /tmp/mutdemo.$$ >/tmp/mutdemo.$$.out 2>&1 ); echo $?; }
     build_demo "$@" || { echo "CONFIRM: demo does not build on clean tree"; exit 1; }
@@ -19,7 +20,7 @@ confirm)
     git -C "$wt" apply "$dir/patch.diff" || { echo "CONFIRM: patch does not apply"; exit 1; }
     build_demo "$@" || { echo "CONFIRM: demo does not build with patch (property-breaking change must still compile?)"; }
     mut_rc=$(run_demo); tail -3 /tmp/mutdemo.$$.out
-    suite=$(bash /verif/tools/run_suite.sh "$wt" 2>&1 | tail -1)
+    suite=$(bash "$VERIF"/tools/run_suite.sh "$wt" 2>&1 | tail -1)
     rm -rf "$cfg" /tmp/mutdemo.$$.out
     echo "CONFIRM: demo clean rc=$clean_rc, demo with patch rc=$mut_rc, suite with patch: $suite"
     [ "$clean_rc" = 0 ] && [ "$mut_rc" != 0 ] && echo "$suite" | grep -q "PASSED  \] 112 tests" && { echo "CONFIRMED"; exit 0; }
@@ -30,7 +31,7 @@ suite)
     git -C /repo worktree add -q "$wt" HEAD || exit 2
     trap 'git -C /repo worktree remove --force "$wt" >/dev/null 2>&1; rm -rf "$wt"' EXIT
     git -C "$wt" apply "$patch" || { echo "SUITE: patch does not apply"; exit 1; }
-    bash /verif/tools/run_suite.sh "$wt" 2>&1 | tail -1 ;;
+    bash "$VERIF"/tools/run_suite.sh "$wt" 2>&1 | tail -1 ;;
 check)
     # judged on a scratch worktree (VERIF_REPO) so that /repo, the committed evidence and replays stay untouched;
     # `checkrepo` does the same by applying the patch to /repo itself and undoing it afterwards
@@ -41,7 +42,7 @@ check)
     trap 'git -C /repo worktree remove --force "$wt" >/dev/null 2>&1; rm -rf "$wt" "$scratch"' EXIT
     git -C "$wt" apply "$patch" || exit 2
     for p in "$@"; do
-        out=$(cd /verif && VERIF_REPO="$wt" VERIF_EVIDENCE_DIR="$scratch" VERIF_REPLAY_DIR="$scratch" python3 tools/check.py "$p" --tier quick 2>&1); rc=$?
+        out=$(cd "$VERIF" && VERIF_REPO="$wt" VERIF_EVIDENCE_DIR="$scratch" VERIF_REPLAY_DIR="$scratch" python3 tools/check.py "$p" --tier quick 2>&1); rc=$?
         echo "$out" | grep -E "VIOLATION|violation class|INFRA|KNOWN|quick:" | cut -c1-260
         echo "CHECK $p rc=$rc"
     done ;;
@@ -51,7 +52,7 @@ checkrepo)
     git -C /repo apply "$patch" || exit 2
     trap 'git -C /repo checkout -- . ' EXIT
     for p in "$@"; do
-        out=$(cd /verif && python3 tools/check.py "$p" --tier quick 2>&1); rc=$?
+        out=$(cd "$VERIF" && python3 tools/check.py "$p" --tier quick 2>&1); rc=$?
         echo "$out" | grep -E "VIOLATION|violation class|INFRA|KNOWN|quick:" | cut -c1-260
         echo "CHECK $p rc=$rc"
     done ;;
